@@ -387,6 +387,15 @@ func (t *Transformer) ReverseTranslate(v reflect.Value) (reflect.Value, error) {
 		mangledfieldOffset := 0
 		unmangledLayerVals := make([]FieldValueTuple, len(t.mState[manglerNum]))
 		for srcFieldIdx, srcFieldstate := range t.mState[manglerNum] {
+			if len(srcFieldstate.out) == 0 && !ast.IsExported(srcFieldstate.in.Name) {
+				// TranslateType skipped this (unexported) field, so no
+				// mangler has anything to unmangle for it. The empty
+				// tuple left in its place is skipped when the struct is
+				// reassembled below. (Pointerify drops such fields from
+				// the config struct itself, but not from the element
+				// type of a slice of structs.)
+				continue
+			}
 			// slice down to just the mangled fields we're
 			// interested in for this unmangled field.
 			fvtuples := layerMangledVal[mangledfieldOffset : mangledfieldOffset+len(srcFieldstate.out)]
